@@ -14,18 +14,19 @@
 
 struct Blocked {};
 static std::vector<std::string> script; static size_t pos;
-static long opens_ok, sleeps; static std::vector<long> asked; static unsigned long dataseq;
+static long opens_ok, sleeps; static int curfd = -7; static std::vector<long> asked; static unsigned long dataseq;
 static unsigned char nextbyte() { unsigned char b = (unsigned char)((dataseq * 7 + 3) & 0xff); dataseq++; return b; }
 static int my_open(const char*, int) {
   if (pos >= script.size()) throw Blocked();
   std::string e = script[pos];
   if (e == "OF") { pos++; return -1; }
-  if (e == "OK") { pos++; opens_ok++; return 42; }
+  if (e == "OK") { pos++; opens_ok++; curfd = 42; return 42; }
+  if (e == "OK0") { pos++; opens_ok++; curfd = 0; return 0; }       // a successful open may return descriptor 0 (stdin closed)
   throw Blocked();   // wrong kind of answer
 }
 static long my_read(int fd, void* buf, size_t k) {
   asked.push_back((long)k);
-  if (fd != 42) { fprintf(stderr, "read on bad fd\n"); abort(); }
+  if (fd != curfd) { fprintf(stderr, "read on bad fd\n"); abort(); }
   if (pos >= script.size()) { asked.pop_back(); throw Blocked(); }
   std::string e = script[pos];
   if (e == "RE") { pos++; return -1; }
@@ -51,7 +52,7 @@ static unsigned my_sleep(unsigned) { sleeps++; return 0; }
 int main() {
   std::string line; std::ostringstream os;
   while (std::getline(std::cin, line)) {
-    script.clear(); pos = 0; opens_ok = 0; sleeps = 0; asked.clear(); dataseq = 0; nfl::fd = -1;
+    script.clear(); pos = 0; opens_ok = 0; sleeps = 0; curfd = -7; asked.clear(); dataseq = 0; nfl::fd = -1;
     std::istringstream is(line); std::string tok; std::vector<unsigned long> lens; bool second = false;
     while (is >> tok) { if (tok == "|") { second = true; continue; } if (second) lens.push_back(strtoul(tok.c_str(), 0, 10)); else script.push_back(tok); }
     for (unsigned long xlen : lens) {
